@@ -67,3 +67,14 @@ func VerifCheckRequires(id uint16, req uint8, noField, wd bool) (errd bool, hand
 	}
 	return err != nil, handled, goReq, calls
 }
+
+// VerifWriteEmpty runs BinaryProtocol.WriteEmpty on a descriptor built from the three atoms the generated definition reads
+// (Type(), Key().Type(), Elem().Type()); returns the bytes written and whether an error came back.
+func VerifWriteEmpty(typ, key, elem uint8) (out []byte, errd bool) {
+	d := &TypeDescriptor{typ: Type(typ), key: &TypeDescriptor{typ: Type(key)}, elem: &TypeDescriptor{typ: Type(elem)}}
+	p := NewBinaryProtocolBuffer()
+	err := p.WriteEmpty(d)
+	out = append([]byte{}, p.Buf...)
+	FreeBinaryProtocolBuffer(p)
+	return out, err != nil
+}
